@@ -1,6 +1,7 @@
 """C02 — distributed equals sequential: the structural clauses of the MPI path."""
 import itertools
 
+from .. import rules_mpi
 from .. import expr as X
 from .. import query as Q
 from .. import interp
@@ -27,6 +28,8 @@ def run(ck, progs):
     ck.rule("C02.7", "events and anti-messages are routed with lid_to_nid of the destination LP")
     ck.rule("C02.8", "both anti-message matchers search exhaustively: an anti-message is declared early (and an event declared not cancelled) only "
                      "when the end of the list was reached; nothing but the end-of-list test and the identity tests decides that outcome")
+    ck.rule("C02.9", "MPI point-to-point signatures: bytes on the send side, in the size query and on the receive side; the tag probed is the tag "
+                     "sent; MPI_COMM_WORLD everywhere; asynchronous polling accepts any source; MPI_THREAD_MULTIPLE requested and tested")
     for cfg, P in progs.items():
         _sizes(ck, P, cfg)
         _prefix(ck, P, cfg)
@@ -35,6 +38,7 @@ def run(ck, progs):
         _ids(ck, P, cfg)
         _matchers(ck, P, cfg)
         _exhaustive(ck, P, cfg)
+        rules_mpi.check_p2p(ck, P, "C02.9")
         rules_msg.check_deferred_free(ck, P, "C02.6")
         rules_part.check_routing_users(Renamed(ck, {}), P, "C02.7")
 
